@@ -480,7 +480,24 @@ class SymReal:
         if self.is_const():
             return self.const_value()
         c = _ctx()
-        m = c.get_model()
+        # prefer a generic value: inside (0.2, 0.8), different from - but within 1e-4 of - the previously fixed real
+        # (adversarial for state keyed by a rounded float); fall back to anything the path condition allows
+        x = z3.Real(f"__conc{len(c.conc_reals)}")
+        link = [x * self.d == self.n] if self.d is not None else [x == self.n]
+        prev = c.conc_reals[-1] if c.conc_reals else None
+        tries = []
+        if prev is not None:
+            tries.append(link + [x != _rv(prev), x - _rv(prev) < _rv(Fraction(1, 10000)), _rv(prev) - x < _rv(Fraction(1, 10000))])
+        tries.append(link + [x > _rv(Fraction(1, 5)), x < _rv(Fraction(4, 5))] + ([x != _rv(p) for p in c.conc_reals]))
+        tries.append(link + [x != 0, x != 1] + ([x != _rv(p) for p in c.conc_reals]))
+        m = None
+        for extra in tries:
+            r, mm = c._check(*extra)
+            if r == "sat":
+                m = mm
+                break
+        if m is None:
+            m = c.get_model()
         if m is None:
             raise PathAbort("no model to concretise a real")
 
@@ -493,6 +510,8 @@ class SymReal:
         v = q(self.n) if self.d is None else q(self.n) / q(self.d)
         c.assume_raw(self.n == _rv(v) * self.d if self.d is not None else self.n == _rv(v))
         c.note("a symbolic real was fixed to its model value (hashed / formatted / converted by the library)")
+        c.conc_reals.append(v)
+        c.model_ok = False
         self.n, self.d = _rv(v), None
         return v
 
@@ -791,6 +810,7 @@ class Ctx:
         self.values = values or {}
         self.vars = {}  # name -> z3 const (sym mode)
         self.posvars = set()  # ids of z3 reals declared strictly positive
+        self.conc_reals = []  # values symbolic reals were fixed to on this path
         self.draw_budget = draw_budget
         self.draws = 0
         self.rng_log = []
